@@ -365,5 +365,26 @@ def run(F, rep, tier):
             rep.viol('R17.6', evaluate + '|Freeze', 'Expr::Freeze no longer freezes against the current environment with warn = false and an empty bound set (warn %s, env %s, bound %s)' % (okw, oke, okb), fcalls[0].loc())
     else:
         rep.viol('R17.6', evaluate + '|Freeze|shape', 'Expr::Freeze arm does not call freeze and evaluate', None)
+    # ---------------- R17.7
+    rep.rule('R17.7', 'the freeze wrappers are shape preserving: box_freeze, rc_freeze, opt_*_freeze, vec_box_freeze*, box_freeze_underscore_ok and '
+             'box_freeze_lvalue hand their own argument (or the element / Some-payload of it) to the freeze family, never a sub-expression '
+             'taken out of an Expr / Lvalue node - a wrapper that recurses into the child of a node returns the child in place of the node')
+    n7 = 0
+    for w in sorted(F.fns):
+        if not (w.startswith('core::') and w.rsplit('::', 1)[-1] in FREEZE_FAMILY and w.rsplit('::', 1)[-1] not in ('freeze', 'freeze_lvalue', 'freeze_ios')):
+            continue
+        bodies = [F.body(w)] + [F.body(c) for c in F.closures_of(w)]
+        for b_ in bodies:
+            for c in b_.calls:
+                if not is_ff(c.target) or len(c.args) < 2:
+                    continue
+                n7 += 1
+                og = origins(b_, c.args[1])
+                bad = [o for o in og if o[0] == 'payload' and re.search(r'core::(Expr|Lvalue|LocExpr|IndexOrSlice)', str(o[2])) and o[1] not in ('Some',)]
+                if bad:
+                    rep.viol('R17.7', '%s|%s|sub-expression' % (w, c.target.rsplit('::', 1)[-1]), '%s passes the child of a %s node to %s and returns the result in place of the node: the node itself (e.g. the splat marker) disappears from the frozen program' % (w, bad[0][1], c.target.rsplit('::', 1)[-1]), c.loc())
+                else:
+                    rep.ok('R17.7', '%s -> %s' % (w.rsplit('::', 1)[-1], c.target.rsplit('::', 1)[-1]), 'argument is the wrapper\'s own parameter / element')
+    rep.floor('R17.7', 'wrapper calls into the freeze family', n7, 8)
     rep.undecided += ['the frozen program computes the same values as the unfrozen one']
     return META
